@@ -247,12 +247,18 @@ func checkGenKey(c *Case, v *Verdict) {
 		v.fail("genkey-overread", "success after 32 bytes without a further Read", act, "GenerateKey read past the 32nd byte and then failed")
 		return
 	}
+	if dev.Delivered == 32 && dev.ErrAtByte == 32 && dev.ErrWith {
+		// The Read that completed the seed also reported an error. io.Reader:
+		// "callers should always process the n > 0 bytes returned before
+		// considering the error"; the 32 bytes were read, so the key is due
+		// (this is what io.ReadFull, the anchored mechanism, does).
+		v.fail("genkey-error-with-last-byte", "the key pair: all 32 bytes were delivered", act,
+			"GenerateKey read all 32 bytes and still failed, because the Read that delivered the last byte also reported %v", devErr(dev.ErrKind))
+		return
+	}
 	if !errMatches(out.err, dev.ErrKind, dev.Delivered) {
 		v.fail("genkey-error-identity", fmt.Sprintf("the reader's error (%v)", devErr(dev.ErrKind)), act, "GenerateKey returned a different error than the reader's")
 		return
-	}
-	if dev.ErrAtByte == 32 && dev.ErrWith {
-		v.probe("genkey-error-with-last-byte-failure")
 	}
 }
 
@@ -286,7 +292,7 @@ func coherent(v *Verdict, pub, priv []byte, act string) bool {
 
 // ---------------------------------------------------------------- C14: accessors as a state machine
 
-const nAccSteps = 13
+const nAccSteps = 15
 
 func checkAccessors(c *Case, v *Verdict) {
 	r := NewRng(c.Seed, lbl("acc"))
@@ -437,6 +443,48 @@ func checkAccessors(c *Case, v *Verdict) {
 			model = append([]byte{}, priv...)
 			lastPub, lastSeed = nil, nil
 			v.probe("generated-key")
+		case 13:
+			// what a call returned belongs to the caller: wiping or rewriting
+			// a derived key must not change what the next derivation from the
+			// same seed returns (a memo that shares storage with its result)
+			fresh := model[:32]
+			if r.Chance(2, 3) {
+				fresh = r.Bytes(32) // a seed this process has never derived from
+			}
+			want := stded.NewKeyFromSeed(fresh)
+			t := ed25519.NewKeyFromSeed(append([]byte{}, fresh...))
+			switch r.Intn(3) {
+			case 0:
+				for i := range t {
+					t[i] = 0
+				}
+			case 1:
+				for i := 32; i < len(t); i++ {
+					t[i] ^= 0xff
+				}
+			default:
+				t[32+r.Intn(32)] ^= 1 << uint(r.Intn(8))
+			}
+			t2 := ed25519.NewKeyFromSeed(append([]byte{}, fresh...))
+			if !bytes.Equal(t2, want) {
+				fail("derive-after-scribble", hx(want), hx(t2), "NewKeyFromSeed returned a different key after the caller overwrote an earlier result for the same seed")
+				return
+			}
+			v.probe("derive-scribble-derive")
+		case 14:
+			// Equal is about bytes, not about the points they decode to:
+			// different encodings of one point (sign bit on x = 0, y + p) and
+			// different small-order points are all different keys
+			encs := append(append([][]byte{}, smallOrderEnc...), nonCanonEnc...)
+			a := encs[r.Intn(len(encs))]
+			for _, b := range encs {
+				eq := ed25519.PublicKey(a).Equal(ed25519.PublicKey(b))
+				if eq != bytes.Equal(a, b) {
+					fail("equal-encodings", fmt.Sprint(bytes.Equal(a, b)), fmt.Sprint(eq), fmt.Sprintf("PublicKey.Equal(%x, %x) = %v", a, b, eq))
+					return
+				}
+			}
+			v.probe("equal-on-special-encodings")
 		case 12:
 			// a key derived from a seed that sits inside a larger caller buffer
 			// (spare capacity behind it) must be a fresh object and must leave
